@@ -71,13 +71,17 @@ def open_tunnels(ports):
     # http connect carrying udp (inline frames)
     s, code, head, rest = http_connect(ports['http'], f'127.0.0.1:{uport}', extra_headers=b'Proxy-Protocol: udp\r\n', timeout=4)
     keep['http-udp'] = (s, code == 200)
+    # ... and the same with a bind source (feature UdpBind: what a full-cone tproxy hop in front of this proxy sends)
+    s, code, head, rest = http_connect(ports['http'], f'127.0.0.1:{uport}', extra_headers=b'Proxy-Protocol: udp\r\nUdp-Bind-Source: 127.0.0.1:0\r\n', timeout=4)
+    keep['http-udp-bind'] = (s, code == 200)
     return keep
 
 KIND_OF = {  # listener name + feature -> kind
     ('http', 'TcpForward'): 'http', ('socks', 'TcpForward'): 'socks', ('rtcp', 'TcpForward'): 'rtcp',
     ('socks', 'UdpForward'): 'socks-udp', ('rudp', 'UdpForward'): 'rudp', ('http', 'UdpForward'): 'http-udp',
+    ('http', 'UdpBind'): 'http-udp-bind',
 }
-IS_UDP = {'http': False, 'socks': False, 'rtcp': False, 'socks-udp': True, 'rudp': True, 'http-udp': True}
+IS_UDP = {'http': False, 'socks': False, 'rtcp': False, 'socks-udp': True, 'rudp': True, 'http-udp': True, 'http-udp-bind': True}
 
 def wiring(case):
     idle, udp = case
@@ -274,6 +278,6 @@ echo.stop(); uecho.close()
 if evals < 30 or len(distinct) < 3:
     machinery(f'vacuous: evals={evals} distinct={len(distinct)}')
 cov = {'evaluations': evals, 'distinct_nontrivial': len(distinct), 'transitions': evals, 'traces_validated_against_impl': evals,
-       'rule': 'real binary: timeouts.idle x timeouts.udp grid (16 cells) x 6 tunnel kinds, idle_timeout reported by /api/live vs configured/default; close timing of silent tcp and udp tunnels with T=2, T=0 and four periods whose millisecond count exceeds 64 bits; tunnels whose set-up (client handshake / upstream answer) takes longer than the period must get a whole period once established',
+       'rule': 'real binary: timeouts.idle x timeouts.udp grid (16 cells) x 7 tunnel kinds, idle_timeout reported by /api/live vs configured/default; close timing of silent tcp and udp tunnels with T=2, T=0 and four periods whose millisecond count exceeds 64 bits; tunnels whose set-up (client handshake / upstream answer) takes longer than the period must get a whole period once established',
        'grid_cells': len(grid), 'tunnel_kinds': list(IS_UDP), 'schedule_control': 'kernel', 'samples': samples}
 sys.exit(chk.finish('model_checking', cov, ['E4 part: real clock; late bounds carry 1 s ticker (+1 s GC for the registry) + 2 s slack, early bounds 50 ms']))
